@@ -59,6 +59,8 @@ class SupvisorsTimes:
         # approximate startup monotonic time of the remote Supvisors instance (in the local monotonic time reference)
         # will be used to display the remote Supvisors instance uptime
         self.start_local_mtime: float = -1.0
+        # set upon a stealth restart, until the Supvisors instance has been invalidated
+        self.stealth_restart: bool = False
 
     @property
     def capped_remote_time(self) -> int:
@@ -114,6 +116,11 @@ class SupvisorsTimes:
             # The Supvisors periodical check will handle the node invalidation
             local_sequence_counter = 0
             self.start_local_mtime = -1
+            self.stealth_restart = True
+        elif self.stealth_restart:
+            # the inactivity is forced until the periodic check has invalidated the Supvisors instance,
+            # otherwise the next TICK of the restarted Supvisors instance would cancel it
+            local_sequence_counter = 0
         # update remote attributes
         self.remote_sequence_counter = remote_sequence_counter
         self.remote_mtime = remote_mtime
@@ -281,6 +288,7 @@ class SupvisorsInstanceStatus:
             # a new life cycle starts with this TICK: the counter of the previous one is obsolete
             # (the restart has already been dealt with, so it must not be detected as a stealth restart)
             self.times.remote_sequence_counter = 0
+            self.times.stealth_restart = False
         self.times.update(remote_sequence_counter, remote_mtime, remote_time, local_sequence_counter)
         # update all process times
         for process in self.processes.values():
